@@ -62,6 +62,7 @@ type Rec struct {
 	id    int
 	class string
 	w     *os.File
+	beat  time.Time
 }
 
 func (r *Rec) line(s string) { r.w.WriteString(s + "\n") }
@@ -85,6 +86,17 @@ func unhx(s string) string {
 // the input is recorded as finished: the worker's deferred Done releases the main goroutine, which
 // would otherwise run on for a moment (and the crash would be pinned on a later input).
 func (r *Rec) Settle() { time.Sleep(5 * time.Millisecond) }
+
+// Beat tells the parent that the harness is making progress inside a long target (a walk over
+// thousands of entries): the hang detector looks for "no new line for StallS seconds", and a slow
+// walker must not look like a hang.  Called by the harness between calls into the code under test,
+// never from inside one, so a call that does not return still stalls.
+func (r *Rec) Beat() {
+	if now := time.Now(); now.Sub(r.beat) > 500*time.Millisecond {
+		r.beat = now
+		r.line(fmt.Sprintf("B %d", r.id))
+	}
+}
 
 // Fail records a property-oracle failure.
 func (r *Rec) Fail(sig, what string) { r.line(fmt.Sprintf("F %d %s %s", r.id, sig, hx(what))) }
